@@ -208,7 +208,7 @@ check('C08',
       'vm_compute on the exact decimal numbers of generated polyco texts and the exact two-double times) and the monitor (tempo formula '
       'with fractions.Fraction: |phase - formula| <= 1e-8 cycles).',
       'Trusted: Coq kernel; astropy Time differences as exact rationals (TAI); float64 Horner error below 1e-8 inside the sampled envelope '
-      'F0*span/2 <= 2e6 cycles; searchsorted on float MJD (times within 20 us of a span end excluded from the selection comparison).',
+      'F0*span/2 <= 1e6 cycles; searchsorted on float MJD (times within 20 us of a span end excluded from the selection comparison).',
       'machine-checked proof in Coq (Q) + correspondence run (vm_compute) + exact-rational monitor',
       'DESIGN.md 5 C08')
 
